@@ -1,6 +1,6 @@
 # Edited by hand as coverage grows; consumed by mkmanifest.py.
 NOTYET = "not claimed in this revision: the functions this property depends on are not yet under contract (work in progress, see DESIGN.md section 9)"
-for _p in ["C02","C03","C04","C06","C08","C11","C13","C14","C16","C18","C19","C20"]:
+for _p in ["C02","C03","C04","C06","C08","C11","C14","C16","C18","C19","C20"]:
     na(_p, NOTYET)
 na("C12", "tree equality across archive/tar, compress/gzip and the OS has no contract-level statement within reach of a function-modular verifier; the oras-go code in between is almost entirely calls into those libraries (DESIGN.md section 9, C12)")
 
@@ -36,3 +36,8 @@ claim("C15",
   "Unbounded proof on the real listing code: parseLink takes exactly the text between '<' and the first '>' and never indexes out of range, an absent Link header yields errNoLink and nothing else does; limitReader/limitSize use n or the default (exact comparison); filterReferrers is an exact order-preserving filter (identity for an empty type); isReferrersFilterApplied is exact; the tag page loop sends `last` only on the first request, follows the returned link, stops with nil exactly on errNoLink and returns any other error unchanged; a tag page calls the callback exactly once with the decoded list, returns its error unchanged, decodes only through the metadata limit and sends n/last exactly when configured.",
   "Assumed: contracts of net/http, net/url, strings.Split/IndexByte, io.LimitReader, encoding/json (decoding writes only through its target; a truncated document failing to decode is json's business), Repository.do (trusted), user callbacks do not touch the response object (explicit assumption). Referrers API pages and the catalog listing follow the same pattern and are not yet under contract in this revision.",
   "DESIGN.md section 9 C15")
+
+claim("C13",
+  "Validation clauses only (second sentence of the property): unbounded proof that verifyContentDigest is exact, generateBlobDescriptor/generateDescriptor implement the documented decision table (length, header digest, reference digest, HEAD needs a digest), blob and manifest Fetch return a reader only for status 200 with consistent length and digest header and close the body on every error path, 404 maps to ErrNotFound, routing between blob and manifest endpoints is exactly membership in the configured (or default) manifest media types, and the seekable reader sends a Range request only for a position strictly inside the content with header bounds offset..size-1, accepts only 206, keeps its position on error and advances its offset by the bytes read.",
+  "Assumed: contracts of net/http, mime, go-digest Parse (Parse(s) returns s and an error iff s is not a digest), Repository.do and AppendRepositoryScope (trusted frames), fmt.Sprint* pure. Not decided: registry state and histories, that every request is one the distribution spec allows, Push/Mount/Resolve/FetchReference/delete paths (not yet under contract), 64-bit overflow of absurd seek offsets is excluded by hypothesis in the Seek postcondition.",
+  "DESIGN.md section 9 C13")
